@@ -1,5 +1,7 @@
 \* deviation EncloseTruncates reproduced on the real code: 255 / 256 byte payloads behind lfl = 1
 CONSTANTS
+  FixExtractOverflow = TRUE
+  FixFramerError = TRUE
   Lfls = {1}
   HostLfls = {1}
   Endians = {TRUE, FALSE}
